@@ -1034,8 +1034,7 @@ class Atoms:
 
         bond_dicts = [a.attrib for a in root.findall('.//bond')]
         bond_tuples = [(a['atomRefs2'].split(), float(a['order'])) for a in bond_dicts]
-        bonds_by_ids, bond_orders = zip(*bond_tuples)
-        bonds = [(id_to_idx[b1], id_to_idx[b2]) for (b1,b2) in bonds_by_ids]
+        bonds = [(id_to_idx[b1], id_to_idx[b2]) for ((b1,b2), _) in bond_tuples]
         bond_types = [0 for b in bonds]
         if verbose:
             print("Found %d atoms: %s" % (len(elements), elements))
